@@ -297,6 +297,93 @@ theorem iter_map_collect_expr (f f0 : Nat) (env : Env) (e : Expr) (gname : Strin
   simp only [bind_def, hm, hc']
   rfl
 
+theorem eval_filter (f : Nat) (env : Env) (a b : Expr) : eval (f + 1) env (.bin .filter a b) =
+    (do let it ← eval f env a
+        let g ← eval f env b
+        match it.asType.returnType with
+        | some r => do
+          let id ← freshId
+          pure (.fn id [] r filterBody [("func", it), ("predicate", g)] none)
+        | none => wrong "filter on a non-function") := by
+  first | (simp only [eval]; done) | (simp only [eval]; rfl)
+
+/-- **`e~ ? p $]` evaluates to `filter p e`** - the whole expression -/
+theorem iter_filter_collect_expr (f f0 : Nat) (env : Env) (e : Expr) (pname : String) (p : Val) (q : Val → Bool)
+    (σ σ1 : St) (ty : Ty) (es : List Val)
+    (he : eval f env e σ = (.ok (.arr ty es), σ1)) (hn : (es.length : Int) < 2 ^ 63)
+    (hlook : env.lookup pname = some p) (hq : PurePred p q f0) :
+    ∃ F σ', eval F env (.post .collect (.bin .filter (.post .iter e) (.var pname))) σ = (.ok (Val.mkArray (es.filter q)), σ') := by
+  let σ2 : St := { cells := σ1.cells.push (.int (BitVec.ofInt 64 (-1))), nextId := σ1.nextId + 1 }
+  let σ3 : St := { σ2 with nextId := σ2.nextId + 1 }
+  have hcell : σ3.cells[σ1.cells.size]? = some (.int (BitVec.ofInt 64 (-1))) := by simp [σ3, σ2]
+  obtain ⟨σ', hcol⟩ := iter_filter_collect σ1.nextId σ2.nextId σ1.cells.size ty ty (.tup [.bool, ty]) es ((ofType ty).getD .unit)
+    p q f0 hn hq σ3 hcell
+  let K := f + f0 + 20 + 27 + es.length + (es.filter q).length + 3
+  have he' := eval_lift (K - 3) he (by omega)
+  have hi : eval (K - 2) env (.post .iter e) σ = (.ok (arrIter σ1.nextId σ1.cells.size ty ty es ((ofType ty).getD .unit)), σ2) := by
+    have e1 : K - 2 = (K - 3) + 1 := by omega
+    rw [e1]; exact eval_iter (K - 3) env e σ σ1 ty es he'
+  have hv : eval (K - 2) env (.var pname) σ2 = (.ok p, σ2) := by
+    have e1 : K - 2 = (K - 3) + 1 := by omega
+    rw [e1, eval_var, hlook]; rfl
+  have hrt : (arrIter σ1.nextId σ1.cells.size ty ty es ((ofType ty).getD .unit)).asType.returnType = some (.tup [.bool, ty]) := by
+    simp [arrIter, Val.asType, Ty.returnType, Ty.query]
+  have hm : eval (K - 1) env (.bin .filter (.post .iter e) (.var pname)) σ =
+      (.ok (filtered σ2.nextId (.tup [.bool, ty]) (arrIter σ1.nextId σ1.cells.size ty ty es ((ofType ty).getD .unit)) p), σ3) := by
+    have e1 : K - 1 = (K - 2) + 1 := by omega
+    rw [e1, eval_filter]
+    simp only [bind_def, hi, hv, hrt, freshId, pure_def, filtered]
+    rfl
+  have hc' := lift_eq ((monoAt_le (f0 + 20 + 27 + es.length + (es.filter q).length) (K - 1) (by omega)).collectGo _ []) hcol
+    (by intro σ0 h0; cases h0)
+  refine ⟨K, σ', ?_⟩
+  have e1 : K = (K - 1) + 1 := by omega
+  rw [e1, eval_collect]
+  simp only [bind_def, hm, hc']
+  rfl
+
+/-- `a~ <stages> \ p`: the ordered split of the composed list -/
+theorem pipeline_partition (id loc : Nat) (t ty : Ty) (es : List Val) (dflt : Val) (f0 : Nat) (stages : List Stage)
+    (hn : (es.length : Int) < 2 ^ 63) (hok : ∀ s ∈ stages, s.ok f0)
+    (σ : St) (hc : σ.cells[loc]? = some (.int (BitVec.ofInt 64 (-1))))
+    (p : Val) (q : Val → Bool) (hq : PurePred p q f0) :
+    ∃ F σ', partitionGo F (stages.foldl (fun i s => s.apply i) (arrIter id loc t ty es dflt)) p [] [] σ =
+      (.ok ((stages.foldl (fun l s => s.spec l) es).filter q,
+            (stages.foldl (fun l s => s.spec l) es).filter (fun x => !q x)), σ') := by
+  obtain ⟨F, σ', hp⟩ := pipeline_pulls id loc t ty es dflt f0 stages hn hok σ hc
+  have hp' : Pulls _ (F + f0 + (stages.foldl (fun l s => s.spec l) es).length + 1) σ _ σ' := Pulls.lift hp (by omega)
+  exact ⟨_, σ', by simpa using partition_spec _ p q f0 hq _ σ σ' _ [] [] hp' (by omega)⟩
+
+/-- `$&&` over a list-like iterator of bools is `all`, `$||` is `any` (the iterator is pulled only up to the first
+    deciding element; what is left of it is not touched) -/
+theorem LL.all {it : Val} {f : Nat} : ∀ {bs : List Bool} {σ : St}, LL it f (bs.map Val.bool) σ →
+    ∃ σ', boolGo (f + 2 + bs.length) it true σ = (.ok (.bool (bs.all id)), σ')
+  | [], σ, ⟨rest, σ', h⟩ => ⟨σ', by
+      have hp := pull_of_call_none h
+      simp only [List.length_nil, Nat.add_zero, boolGo, bind_def, hp]; rfl⟩
+  | b :: bs, σ, ⟨σ1, h, t⟩ => by
+    have hp := pull_lift (f + 2 + bs.length) (pull_of_call h) (by omega)
+    have e : f + 2 + (b :: bs).length = (f + 2 + bs.length) + 1 := by simp; omega
+    cases b with
+    | false => exact ⟨σ1, by rw [e]; simp only [boolGo, bind_def, hp]; rfl⟩
+    | true =>
+      obtain ⟨σ', ih⟩ := LL.all t
+      exact ⟨σ', by rw [e]; simp only [boolGo, bind_def, hp]; simpa using ih⟩
+
+theorem LL.any {it : Val} {f : Nat} : ∀ {bs : List Bool} {σ : St}, LL it f (bs.map Val.bool) σ →
+    ∃ σ', boolGo (f + 2 + bs.length) it false σ = (.ok (.bool (bs.any id)), σ')
+  | [], σ, ⟨rest, σ', h⟩ => ⟨σ', by
+      have hp := pull_of_call_none h
+      simp only [List.length_nil, Nat.add_zero, boolGo, bind_def, hp]; rfl⟩
+  | b :: bs, σ, ⟨σ1, h, t⟩ => by
+    have hp := pull_lift (f + 2 + bs.length) (pull_of_call h) (by omega)
+    have e : f + 2 + (b :: bs).length = (f + 2 + bs.length) + 1 := by simp; omega
+    cases b with
+    | true => exact ⟨σ1, by rw [e]; simp only [boolGo, bind_def, hp]; rfl⟩
+    | false =>
+      obtain ⟨σ', ih⟩ := LL.any t
+      exact ⟨σ', by rw [e]; simp only [boolGo, bind_def, hp]; simpa using ih⟩
+
 /-! non-vacuity: the identity closure is a `PureFn`, so `[.map …]` is an admissible pipeline -/
 theorem idFn_pure : PureFn idFn (fun v => v) 5 := by
   intro k x σ hk
